@@ -105,8 +105,31 @@ theorem get_semantics (vs : List VTz) :
     · have : vs.length > 1 := by omega
       simp [h0, this]
 
-/-- `_parse_offset`: an empty value and any length other than 4 or 6 after the sign raise ValueError -/
+/-- `_parse_offset` on the empty value raises ValueError (one input; the general length statement is next) -/
 theorem parse_offset_empty : parseOffset [] = .error .ValueError := by decide
+
+/-- `_parse_offset`: after stripping and removing one leading sign, any length other than 4 or 6 raises ValueError —
+    for every text -/
+theorem parse_offset_bad_length (s0 : List Char)
+    (h : ∀ c rest, strip s0 = c :: rest →
+      (let t := if c == '+' || c == '-' then rest else c :: rest; t.length ≠ 4 ∧ t.length ≠ 6)) :
+    parseOffset s0 = .error .ValueError := by
+  unfold parseOffset
+  cases hs : strip s0 with
+  | nil => rfl
+  | cons c rest =>
+    have := h c rest hs
+    simp only []
+    by_cases hp : c == '+'
+    · simp only [hp, Bool.true_or, if_true] at this ⊢
+      simp [this.1, this.2]
+    · by_cases hm : c == '-'
+      · simp only [hp, hm, Bool.false_or, if_true, Bool.or_true] at this ⊢
+        simp [this.1, this.2]
+      · simp only [hp, hm, Bool.or_self, Bool.false_eq_true, if_false] at this ⊢
+        have h1 : rest.length ≠ 3 := by simpa using this.1
+        have h2 : rest.length ≠ 5 := by simpa using this.2
+        simp [h1, h2]
 
 -- sanity / non-vacuity
 example : parseOffset "+0530".toList = .ok 19800 := by decide
